@@ -132,7 +132,11 @@ class BehavioralRTLIRTypeCheckVisitorL2( BehavioralRTLIRTypeCheckVisitorL1 ):
       # rt.Wire here instead of rt.NetWire
       target.Type = rt.Wire( rhs_type.get_dtype() )
       s.tmpvars[ tmpvar_id ] = rt.Wire( rhs_type.get_dtype() )
-      s.tmpvars_is_explicit[ tmpvar_id ] = node.value._is_explicit
+      # A temporary variable that is assigned an explicitly sized value by
+      # any of its assignments may hold that value when it is used: once
+      # explicit it stays explicit.
+      s.tmpvars_is_explicit[ tmpvar_id ] = \
+          s.tmpvars_is_explicit.get( tmpvar_id, False ) or node.value._is_explicit
 
     else:
       # non-temporary assignment is an L1 thing
